@@ -183,9 +183,11 @@ func checkC19(c *Ctx) {
 			if total == 0 {
 				c.Inconclusive("strace recorded nothing for " + tc.Name)
 			}
-			roots := []string{tmp, box.GoCache, box.GarbleCache, filepath.Join(root, "out.bin"), "/dev/null", "/dev/tty", "/proc", "/root/.config/go/telemetry", root + "/strace.log"}
+			// out.bin-go-tmp-umask: cmd/go itself creates and removes this sibling of a not yet existing
+			// -o target to learn the umask (cmd/go/internal/work, moveOrCopyFile); it is not garble's file.
+			roots := []string{tmp, box.GoCache, box.GarbleCache, filepath.Join(root, "out.bin"), filepath.Join(root, "out.bin-go-tmp-umask"), "/dev/null", "/dev/tty", "/proc", "/root/.config/go/telemetry", root + "/strace.log"}
 			if tc.Name == "build-ok-in-tree-output" {
-				roots = append(roots, filepath.Join(src, "zqoutput.bin"))
+				roots = append(roots, filepath.Join(src, "zqoutput.bin"), filepath.Join(src, "zqoutput.bin-go-tmp-umask"))
 			}
 			bad := outsideRoots(muts, roots)
 			if len(bad) > 0 {
